@@ -599,6 +599,9 @@ Proof.
     rewrite (Hc x Hx), (IH (Some x) c' Hs' Hl'). rewrite andb_assoc. reflexivity.
 Qed.
 
+Lemma existsb_ext' {A} (f g : A -> bool) l : (forall x, f x = g x) -> existsb f l = existsb g l.
+Proof. intro H. induction l as [|x r IH]; [reflexivity|]. cbn [existsb]. rewrite H, IH. reflexivity. Qed.
+
 (* a regular class of a glob component is one atom that agrees with its token off '/' and
    refuses '/' *)
 Lemma glob_class_single cs b body :
@@ -630,5 +633,372 @@ Proof.
     + intros c _. rewrite parse_items_class_items. unfold class_has. cbn [tok_char]. rewrite existsb_conv.
       destruct (existsb (fun i => item_has cs i c) (class_items (b :: body))); reflexivity.
     + unfold class_has. cbn [xorb].
-      rewrite (existsb_ext _ covers_slash) by (intro i; apply citem_has_slash). exact H.
+      rewrite (existsb_ext' _ covers_slash) by (intro i; apply citem_has_slash). rewrite H. reflexivity.
 Qed.
+
+(* the component lemma: the regex of one component consumes exactly one component *)
+Lemma glob_comp_sem cs : forall fuel pc atoms,
+  tr_ast true fuel pc = Ok atoms -> has_char slash pc = false -> glob_comp_ok_fuel fuel pc = true ->
+  forall K rest, no_bol K = true -> blocked (negb cs) K -> bdry rest ->
+  forall prev comp, has_char slash comp = false -> has_char newline comp = false ->
+  re_m (negb cs) (atoms ++ K) prev (comp ++ rest)
+  = tmatch cs true (tokens_fuel fuel pc) comp && re_m (negb cs) K None rest.
+Proof.
+  induction fuel as [|f IH]; intros pc atoms H Hpc Hok K rest Hn Hb Hbd prev comp Hs Hl.
+  { cbn in H. inversion H; subst atoms. cbn [app tokens_fuel]. apply glob_comp_base; assumption. }
+  cbn [tr_ast tokens_fuel glob_comp_ok_fuel] in *.
+  destruct pc as [|c r].
+  { inversion H; subst atoms. cbn [app]. apply glob_comp_base; assumption. }
+  pose proof (has_char_cons_false _ _ _ Hpc) as [Hc Hr].
+  change c_star with ch_star in H. change c_q with ch_q in H. change c_lb with ch_lb in H, Hok.
+  rewrite scan_class_class_end in H, Hok.
+  destruct (N.eqb c ch_star) eqn:Estar.
+  { apply N.eqb_eq in Estar. subst c. change (N.eqb ch_star ch_lb) with false in Hok. cbv iota in Hok.
+    destruct (true && starts_c ch_star r); [discriminate|].
+    destruct (tr_ast true f r) as [t| |] eqn:Et; try discriminate.
+    cbn [bind] in H. inversion H; subst atoms. clear H.
+    pose proof (IH r t Et Hr Hok K rest Hn Hb Hbd) as IHr.
+    rewrite <- app_comm_cons.
+    revert prev Hs Hl. induction comp as [|x c' IHc]; intros prev Hs Hl.
+    - cbn [app]. rewrite re_m_star_unfold, tmatch_star_unfold.
+      pose proof (IHr prev [] eq_refl eq_refl) as E0. cbn [app] in E0. rewrite E0.
+      destruct Hbd as [-> | [rr ->]]; [rewrite !orb_false_r; reflexivity|].
+      change (N.eqb slash slash) with true. cbn [negb andb]. rewrite !orb_false_r. reflexivity.
+    - pose proof (has_char_cons_false _ _ _ Hs) as [Hx Hs'].
+      pose proof (has_char_cons_false _ _ _ Hl) as [_ Hl'].
+      rewrite <- app_comm_cons. rewrite re_m_star_unfold, tmatch_star_unfold.
+      rewrite app_comm_cons, (IHr prev (x :: c') Hs Hl), (IHc (Some x) Hs' Hl').
+      apply N.eqb_neq in Hx. rewrite Hx. cbn [negb andb].
+      destruct (tmatch cs true (tokens_fuel f r) (x :: c')), (tmatch cs true (TStar :: tokens_fuel f r) c'),
+        (re_m (negb cs) K None rest); reflexivity. }
+  destruct (N.eqb c ch_q) eqn:Eq.
+  { apply N.eqb_eq in Eq. subst c. change (N.eqb ch_q ch_lb) with false in Hok. cbv iota in Hok.
+    destruct (tr_ast true f r) as [t| |] eqn:Et; try discriminate.
+    cbn [bind] in H. inversion H; subst atoms. clear H.
+    apply glob_single_step; [reflexivity|discriminate| |reflexivity|exact Hbd| |exact Hs|exact Hl].
+    - intros x Hx. cbn [single tok_char]. apply N.eqb_neq in Hx. rewrite Hx. reflexivity.
+    - intros prev' comp' Hs' Hl'. apply (IH r t Et Hr Hok K rest Hn Hb Hbd); assumption. }
+  destruct (N.eqb c ch_lb) eqn:Elb.
+  { apply N.eqb_eq in Elb. subst c.
+    destruct (class_end r) as [j|] eqn:Ej.
+    - apply andb_true_iff in Hok as [Hok1 Hok2].
+      rewrite <- scan_class_class_end in Ej.
+      destruct (scan_class_stuff r j Ej) as [b [body [Es _]]].
+      rewrite Es in *.
+      destruct (glob_class_single cs b body Hok1) as [neg [items [Hk [Hsem Hsl]]]].
+      rewrite Hk in H. cbn [bind] in H.
+      destruct (tr_ast true f (skipn (S j) r)) as [t| |] eqn:Et; try discriminate.
+      cbn [bind] in H. inversion H; subst atoms. clear H. cbn [app].
+      assert (Htok : (if N.eqb b ch_bang then TClass true (class_items body) else TClass false (class_items (b :: body))) <> TStar)
+        by (destruct (N.eqb b ch_bang); discriminate).
+      replace (if N.eqb b ch_bang then TClass true (class_items body) :: tokens_fuel f (skipn (S j) r)
+               else TClass false (class_items (b :: body)) :: tokens_fuel f (skipn (S j) r))
+        with ((if N.eqb b ch_bang then TClass true (class_items body) else TClass false (class_items (b :: body)))
+              :: tokens_fuel f (skipn (S j) r)) by (destruct (N.eqb b ch_bang); reflexivity).
+      change (AClass neg items :: t ++ K) with ((AClass neg items :: t) ++ K).
+      apply glob_single_step; [reflexivity|exact Htok|exact Hsem|exact Hsl|exact Hbd| |exact Hs|exact Hl].
+      intros prev' comp' Hs' Hl'.
+      apply (IH (skipn (S j) r) t Et (has_char_skipn _ _ _ Hr) Hok2 K rest Hn Hb Hbd); assumption.
+    - destruct (tr_ast true f r) as [t| |] eqn:Et; try discriminate.
+      cbn [bind] in H. inversion H; subst atoms. clear H.
+      apply glob_single_step; [reflexivity|discriminate| | |exact Hbd| |exact Hs|exact Hl].
+      + intros x Hx. cbn [single]. apply lit_eq_tok.
+      + cbn [single]. apply lit_eq_nonslash. exact Hc.
+      + intros prev' comp' Hs' Hl'. apply (IH r t Et Hr Hok K rest Hn Hb Hbd); assumption. }
+  destruct (tr_ast true f r) as [t| |] eqn:Et; try discriminate.
+  cbn [bind] in H. inversion H; subst atoms. clear H.
+  apply glob_single_step; [reflexivity|discriminate| | |exact Hbd| |exact Hs|exact Hl].
+  - intros x Hx. cbn [single]. apply lit_eq_tok.
+  - cbn [single]. apply lit_eq_nonslash. exact Hc.
+  - intros prev' comp' Hs' Hl'. apply (IH r t Et Hr Hok K rest Hn Hb Hbd); assumption.
+Qed.
+
+(* ---- whole patterns ---- *)
+
+(* the text of a path: "/" + "/".join(components) [+ "/"] ; the empty list is the root *)
+Definition path_text (segs : list str) (trailing : bool) : str :=
+  flat_map (fun c => slash :: c) segs ++ (if trailing then [slash] else []).
+
+(* names: non-empty, without '/', and without newline (the newline condition is the known
+   finding about '$' under (?ms), see glob_dollar_newline_refuted) *)
+Definition seg_ok (c : str) : bool :=
+  negb (is_empty c) && negb (has_char slash c) && negb (has_char newline c).
+
+Definition glob_tail (e : bool) : regex := if e then [ALit slash; AEol] else [AEol].
+
+Lemma path_text_bdry segs trailing : bdry (path_text segs trailing).
+Proof.
+  unfold path_text. destruct segs as [|c r].
+  - destruct trailing; [right; eexists; reflexivity|left; reflexivity].
+  - right. eexists. cbn [flat_map]. rewrite <- app_comm_cons. reflexivity.
+Qed.
+
+Lemma blocked_lit_slash ci K : blocked ci (ALit slash :: K).
+Proof.
+  intros x s p Hx _. rewrite re_m_single_unfold by reflexivity. cbn [single].
+  rewrite (lit_eq_slash ci x Hx). reflexivity.
+Qed.
+
+Lemma blocked_tail ci e : blocked ci (glob_tail e).
+Proof.
+  destruct e; [apply blocked_lit_slash|].
+  intros x s p _ Hx. cbn [glob_tail re_m eol]. apply N.eqb_neq in Hx. rewrite Hx. reflexivity.
+Qed.
+
+Lemma is_dstar_false pc : has_dstar pc = false -> is_dstar pc = false.
+Proof.
+  intro H. unfold is_dstar. destruct (str_eqb pc [ch_star; ch_star]) eqn:E; [|reflexivity].
+  apply str_eqb_eq in E. subst pc. discriminate.
+Qed.
+
+Lemma lit_eq_refl ci a : lit_eq ci a a = true.
+Proof. destruct ci; cbn [lit_eq]; apply N.eqb_refl. Qed.
+
+Lemma seg_ok_inv c : seg_ok c = true ->
+  has_char slash c = false /\ has_char newline c = false /\ exists x t, c = x :: t /\ x <> newline.
+Proof.
+  unfold seg_ok. intro H. apply andb_true_iff in H as [H H3]. apply andb_true_iff in H as [H1 H2].
+  apply negb_true_iff in H1, H2, H3. split; [exact H2|]. split; [exact H3|].
+  destruct c as [|x t]; [discriminate|]. exists x, t. split; [reflexivity|].
+  apply (has_char_cons_false _ _ _ H3).
+Qed.
+
+(* the main induction: a '**'-free pattern of k regular components against a path text *)
+Lemma glob_main cs e trailing : implb trailing e = true ->
+  forall pcs x,
+  glob_components_ast pcs = Ok x ->
+  forallb (fun c => negb (has_dstar c) && glob_comp_ok c) pcs = true ->
+  Forall (fun c => has_char slash c = false) pcs ->
+  fst x = false
+  /\ no_bol (snd x ++ glob_tail e) = true
+  /\ blocked (negb cs) (snd x ++ glob_tail e)
+  /\ (e = true -> forall p, re_m (negb cs) (snd x ++ glob_tail e) p [] = false)
+  /\ forall segs prev, forallb seg_ok segs = true ->
+       re_m (negb cs) (snd x ++ glob_tail e) prev (path_text segs trailing)
+       = eqb trailing e && gmatch cs pcs segs.
+Proof.
+  intro He. induction pcs as [|pc pcs IH]; intros x H Hok Hns.
+  - cbn in H. inversion H; subst x. cbn [fst snd app].
+    split; [reflexivity|]. split; [destruct e; reflexivity|]. split; [apply blocked_tail|].
+    split; [intros -> p; reflexivity|].
+    intros segs prev Hsegs. destruct segs as [|c segs'].
+    + destruct e, trailing, cs; try discriminate; reflexivity.
+    + cbn [forallb] in Hsegs. apply andb_true_iff in Hsegs as [Hc _].
+      destruct (seg_ok_inv c Hc) as [_ [_ [x0 [t0 [-> Hx0]]]]].
+      apply N.eqb_neq in Hx0.
+      unfold path_text. cbn [flat_map]. rewrite <- !app_comm_cons. cbn [gmatch]. rewrite andb_false_r.
+      destruct e; cbn [glob_tail].
+      * rewrite re_m_single_unfold by reflexivity. cbn [single]. rewrite lit_eq_refl. cbn [andb re_m eol].
+        rewrite Hx0. reflexivity.
+      * cbn [re_m eol]. reflexivity.
+  - cbn [glob_components_ast] in H. cbn [forallb] in Hok.
+    apply andb_true_iff in Hok as [Hpc Hok']. apply andb_true_iff in Hpc as [Hds Hcok].
+    apply negb_true_iff in Hds. inversion Hns as [|? ? Hpcs Hns']; subst.
+    unfold glob_component_ast in H. rewrite Hds in H. unfold glob_translate_ast, tr_ast_run in H.
+    destruct (tr_ast true (S (length pc)) pc) as [t| |] eqn:Et; try discriminate. cbn [bind] in H.
+    destruct (glob_components_ast pcs) as [y| |] eqn:Ey; try discriminate. cbn [bind fst snd] in H.
+    inversion H; subst x. clear H. cbn [fst snd orb].
+    destruct (IH y eq_refl Hok' Hns') as [Hf [Hnb [Hbl [Hend IHm]]]].
+    set (K := snd y ++ glob_tail e) in *.
+    assert (EK : (ALit slash :: t ++ snd y) ++ glob_tail e = ALit slash :: (t ++ K)).
+    { unfold K. rewrite <- app_comm_cons, <- app_assoc. reflexivity. }
+    rewrite EK.
+    split; [exact Hf|]. split.
+    { cbn [no_bol]. rewrite no_bol_app, (tr_ast_no_bol _ _ _ _ Et). exact Hnb. }
+    split; [apply blocked_lit_slash|].
+    split; [intros _ p; reflexivity|].
+    intros segs prev Hsegs.
+    rewrite (gmatch_plain_unfold cs pc pcs segs (is_dstar_false pc Hds)).
+    rewrite re_m_single_unfold by reflexivity.
+    destruct segs as [|c segs'].
+    + unfold path_text. cbn [flat_map app]. rewrite andb_false_r.
+      destruct trailing; [|reflexivity].
+      destruct e; [|discriminate].
+      cbn [single]. rewrite lit_eq_refl. cbn [andb].
+      pose proof (glob_comp_sem cs (S (length pc)) pc t Et Hpcs Hcok K [] Hnb Hbl (or_introl eq_refl)
+                    (Some slash) [] eq_refl eq_refl) as E0.
+      cbn [app] in E0. rewrite E0.
+      rewrite (Hend eq_refl None). apply andb_false_r.
+    + cbn [forallb] in Hsegs. apply andb_true_iff in Hsegs as [Hc Hsegs'].
+      destruct (seg_ok_inv c Hc) as [Hcs [Hcl _]].
+      unfold path_text. cbn [flat_map]. rewrite <- app_assoc. rewrite <- app_comm_cons.
+      fold (path_text segs' trailing).
+      cbn [single]. rewrite lit_eq_refl. cbn [andb].
+      rewrite (glob_comp_sem cs (S (length pc)) pc t Et Hpcs Hcok K (path_text segs' trailing) Hnb Hbl
+                 (path_text_bdry segs' trailing) (Some slash) c Hcs Hcl).
+      rewrite (IHm segs' None Hsegs').
+      unfold tokens.
+      destruct (tmatch cs true (tokens_fuel (S (length pc)) pc) c), (eqb trailing e), (gmatch cs pcs segs'); reflexivity.
+Qed.
+
+(* (iii) glob.match / imatch for patterns without '**'.
+   For every pattern whose classes are regular (glob_pattern_ok), every path given by its
+   names (non-empty, no '/', no newline), with or without a trailing slash — a trailing
+   slash only together with a pattern that ends in '/' (otherwise: glob_dir_slash_refuted,
+   the known Globber finding) — matching the compiled regex = the pattern ends in '/' exactly
+   when the path does, and the components match one by one. *)
+Theorem glob_regex_correct : forall cs pat pcs lv r segs trailing,
+  glob_translate_glob_ast pat = Ok (lv, r) ->
+  resolve (comps pat) = Some pcs ->
+  glob_pattern_ok pat = true ->
+  forallb seg_ok segs = true ->
+  implb trailing (ends_c slash pat) = true ->
+  re_match (negb cs) r (path_text segs trailing)
+  = eqb trailing (ends_c slash pat) && gmatch cs pcs segs.
+Proof.
+  intros cs pat pcs lv r segs trailing H Hres Hok Hsegs Himp.
+  unfold glob_translate_glob_ast in H. rewrite iteratepath_spec, Hres in H. cbn [bind] in H.
+  destruct (glob_components_ast pcs) as [x| |] eqn:Ex; try discriminate. cbn [bind] in H.
+  inversion H; subst lv r. clear H.
+  unfold glob_pattern_ok in Hok. rewrite Hres in Hok.
+  assert (Hns : Forall (fun c => has_char slash c = false) pcs).
+  { pose proof (resolve_comps_good pat pcs Hres) as Hg. apply Forall_good_noslash in Hg. exact Hg. }
+  destruct (glob_main cs (ends_c slash pat) trailing Himp pcs x Ex Hok Hns) as [_ [_ [_ [_ Hm]]]].
+  unfold re_match. cbn [app re_m bol andb].
+  exact (Hm segs None Hsegs).
+Qed.
+Print Assumptions glob_regex_correct.
+
+(* in the terms of ShellSpec.glob_spec: a resource whose text carries a trailing slash
+   exactly when the pattern does (a directory for a slash pattern, anything otherwise) *)
+Corollary glob_regex_spec : forall cs pat lv r segs,
+  glob_translate_glob_ast pat = Ok (lv, r) ->
+  glob_pattern_ok pat = true ->
+  forallb seg_ok segs = true ->
+  glob_spec cs pat segs (ends_c slash pat)
+  = Some (re_match (negb cs) r (path_text segs (ends_c slash pat))).
+Proof.
+  intros cs pat lv r segs H Hok Hsegs. unfold glob_spec.
+  pose proof Hok as Hok'. unfold glob_pattern_ok in Hok'.
+  destruct (resolve (comps pat)) as [pcs|] eqn:Hres; [|discriminate].
+  rewrite (glob_regex_correct cs pat pcs lv r segs (ends_c slash pat) H Hres Hok Hsegs)
+    by (destruct (ends_c slash pat); reflexivity).
+  destruct (ends_c slash pat); reflexivity.
+Qed.
+Print Assumptions glob_regex_spec.
+
+(* ---- levels ---- *)
+
+Lemma has_dstar_eq s : Translate.has_dstar s = ShellSpec.has_dstar s.
+Proof.
+  induction s as [|a r IH]; [reflexivity|].
+  destruct r as [|b r']; [reflexivity|].
+  change (ShellSpec.has_dstar (a :: b :: r'))
+    with ((N.eqb a ch_star && N.eqb b ch_star) || ShellSpec.has_dstar (b :: r')).
+  rewrite <- IH. reflexivity.
+Qed.
+
+Lemma glob_components_fst : forall pcs x,
+  glob_components_ast pcs = Ok x -> fst x = existsb Translate.has_dstar pcs.
+Proof.
+  induction pcs as [|c r IH]; intros x H.
+  - inversion H. reflexivity.
+  - cbn [glob_components_ast] in H.
+    destruct (glob_component_ast c) as [x1| |] eqn:E1; try discriminate. cbn [bind] in H.
+    destruct (glob_components_ast r) as [y| |] eqn:Ey; try discriminate. cbn [bind] in H.
+    inversion H; subst x. cbn [fst existsb]. rewrite (IH y eq_refl). f_equal.
+    unfold glob_component_ast in E1. destruct (Translate.has_dstar c).
+    + destruct (map_o glob_translate_ast (split_dstar c)); try discriminate. inversion E1. reflexivity.
+    + destruct (glob_translate_ast c); try discriminate. inversion E1. reflexivity.
+Qed.
+
+(* the depth bound handed to the walker is ShellSpec.levels (with C14_levels_sound: pruning
+   the walk at that depth never loses a match) *)
+Theorem glob_levels_correct : forall pat lv t,
+  glob_translate_glob pat = Ok (lv, t) -> lv = ShellSpec.levels pat.
+Proof.
+  intros pat lv t H. rewrite glob_translate_glob_render in H.
+  unfold glob_translate_glob_ast in H. rewrite iteratepath_spec in H. unfold levels.
+  destruct (resolve (comps pat)) as [pcs|]; [|discriminate]. cbn [bind] in H.
+  destruct (glob_components_ast pcs) as [x| |] eqn:Ex; try discriminate. cbn [bind omap fst snd] in H.
+  inversion H. rewrite (glob_components_fst pcs x Ex).
+  rewrite (existsb_ext' _ ShellSpec.has_dstar) by apply has_dstar_eq. reflexivity.
+Qed.
+Print Assumptions glob_levels_correct.
+
+(* a pattern that climbs above the root: iteratepath raises IllegalBackReference *)
+Theorem glob_translate_glob_backref : forall pat,
+  resolve (comps pat) = None -> glob_translate_glob pat = Err IllegalBackReference.
+Proof.
+  intros pat H. unfold glob_translate_glob. rewrite iteratepath_spec, H. reflexivity.
+Qed.
+Print Assumptions glob_translate_glob_backref.
+
+(* ------------------------------------------------------------------ *)
+(* 5. where the code's regex differs from the specification            *)
+(* ------------------------------------------------------------------ *)
+(* Each example: what glob.match returns (through the model, which is compared with the
+   running code on every run), what the specification says, and which side condition of
+   glob_regex_correct fails. Characters: / 47, a 97, b 98, x 120, * 42, [ 91, ] 93, ! 33,
+   - 45, + 43, 0 48, newline 10. *)
+
+(* KNOWN finding 1: '$' under (?ms) matches before a newline:  match("a", "/a\nb") *)
+Example glob_dollar_newline_refuted :
+  glob_match_model true [97] [47; 97; 10; 98] = Ok (Some true)
+  /\ glob_spec true [97] [[97; 10; 98]] false = Some false
+  /\ forallb seg_ok [[97; 10; 98]] = false.
+Proof. repeat split; vm_compute; reflexivity. Qed.
+
+(* KNOWN finding 2: '**' becomes '/?' '.*' pieces that cross components:
+   match("a/**/b", "/ab/b") *)
+Example glob_dstar_crosses_refuted :
+  glob_match_model true [97; 47; 42; 42; 47; 98] [47; 97; 98; 47; 98] = Ok (Some true)
+  /\ glob_spec true [97; 47; 42; 42; 47; 98] [[97; 98]; [98]] false = Some false
+  /\ glob_pattern_ok [97; 47; 42; 42; 47; 98] = false.
+Proof. repeat split; vm_compute; reflexivity. Qed.
+
+(* KNOWN finding 3 at the level of match: a directory is matched with '/' appended, so a
+   pattern without trailing slash sees an extra empty component:  match("a/*", "/a/") *)
+Example glob_dir_slash_refuted :
+  glob_match_model true [97; 47; 42] [47; 97; 47] = Ok (Some true)
+  /\ path_text [[97]] true = [47; 97; 47]
+  /\ glob_spec true [97; 47; 42] [[97]] true = Some false
+  /\ implb true (ends_c slash [97; 47; 42]) = false.
+Proof. repeat split; vm_compute; reflexivity. Qed.
+
+(* the same for the root:  match("*", "/") *)
+Example glob_star_root_refuted :
+  glob_match_model true [42] [47] = Ok (Some true)
+  /\ path_text [] true = [47]
+  /\ glob_spec true [42] [] true = Some false.
+Proof. repeat split; vm_compute; reflexivity. Qed.
+
+(* NEW: a positive class whose range contains '/' crosses a component boundary:
+   match("a[+-a]b", "/a/b") *)
+Example glob_range_slash_refuted :
+  glob_match_model true [97; 91; 43; 45; 97; 93; 98] [47; 97; 47; 98] = Ok (Some true)
+  /\ glob_spec true [97; 91; 43; 45; 97; 93; 98] [[97]; [98]] false = Some false
+  /\ glob_pattern_ok [97; 91; 43; 45; 97; 93; 98] = false.
+Proof. repeat split; vm_compute; reflexivity. Qed.
+
+(* NEW: the '/' that fs.glob inserts into a negated class fuses with a leading '-':
+   "[!-a]" is compiled as [^/-a] = "not in the range '/'..'a'":
+   match("[!-a]", "/0") is False although '0' is neither '-' nor 'a';
+   match("[!-a]", "/-") is True although '-' is excluded *)
+Example glob_neg_dash_refuted :
+  glob_translate [91; 33; 45; 97; 93] = Ok [91; 94; 47; 45; 97; 93]
+  /\ glob_match_model true [91; 33; 45; 97; 93] [47; 48] = Ok (Some false)
+  /\ glob_spec true [91; 33; 45; 97; 93] [[48]] false = Some true
+  /\ glob_match_model true [91; 33; 45; 97; 93] [47; 45] = Ok (Some true)
+  /\ glob_spec true [91; 33; 45; 97; 93] [[45]] false = Some false
+  /\ glob_pattern_ok [91; 33; 45; 97; 93] = false.
+Proof. repeat split; vm_compute; reflexivity. Qed.
+
+(* NEW: in a negated class starting with ']' the inserted '/' makes that ']' close the class:
+   "[!]a]" is compiled as [^/]a] = "one character, then the text a]":
+   match("[!]a]", "/xa]") is True, match("[!]a]", "/x") is False
+   (fs.wildcard compiles the same pattern to [^]a] and is right) *)
+Example glob_neg_rb_refuted :
+  glob_translate [91; 33; 93; 97; 93] = Ok [91; 94; 47; 93; 97; 93]
+  /\ glob_match_model true [91; 33; 93; 97; 93] [47; 120; 97; 93] = Ok (Some true)
+  /\ glob_spec true [91; 33; 93; 97; 93] [[120; 97; 93]] false = Some false
+  /\ glob_match_model true [91; 33; 93; 97; 93] [47; 120] = Ok (Some false)
+  /\ glob_spec true [91; 33; 93; 97; 93] [[120]] false = Some true
+  /\ wild_match_model true [91; 33; 93; 97; 93] [120] = Some true
+  /\ glob_pattern_ok [91; 33; 93; 97; 93] = false.
+Proof. repeat split; vm_compute; reflexivity. Qed.
+
+(* ... and what follows that ']' is then unescaped regex text: "[!](]" does not compile *)
+Example glob_neg_rb_raises :
+  glob_match_model true [91; 33; 93; 40; 93] [47; 120] = Ok None.      (* match("[!](]", "/x") : re.error *)
+Proof. vm_compute; reflexivity. Qed.
